@@ -1039,10 +1039,15 @@ func c16Parent(p *mon.Prop, pc *mon.ParentCtx) *mon.Aggregate {
 	agg := mon.NewAggregate()
 	thorough := pc.Tier == "thorough"
 
+	var (
+		stallMu sync.Mutex
+		stalls  = map[string]mon.Stall{} // by log path
+	)
+
 	runChild := func(args []string, env []string, logName string, timeout time.Duration) (string, error, bool) {
 		logp := filepath.Join(pc.Scratch, logName)
 		cmd := exec.Command(pc.Exe, args...)
-		cmd.Env = append(os.Environ(), env...)
+		cmd.Env = append(append(os.Environ(), "GOTRACEBACK=all"), env...)
 
 		lf, _ := os.Create(logp)
 		defer lf.Close()
@@ -1053,18 +1058,17 @@ func c16Parent(p *mon.Prop, pc *mon.ParentCtx) *mon.Aggregate {
 			return logp, err, false
 		}
 
-		done := make(chan error, 1)
-		go func() { done <- cmd.Wait() }()
+		// a hang is told from slowness by the child's state, not by the clock (mon/watch.go)
+		err, st := mon.WaitWatched(cmd, logp, 25*time.Second, timeout)
+		if st.Stalled {
+			stallMu.Lock()
+			stalls[logp] = st
+			stallMu.Unlock()
 
-		select {
-		case err := <-done:
-			return logp, err, false
-		case <-time.After(timeout):
-			_ = cmd.Process.Kill()
-			<-done
-
-			return logp, nil, true
+			return logp, err, true
 		}
+
+		return logp, err, false
 	}
 
 	// 1. arm the detector
@@ -1190,7 +1194,15 @@ func c16Parent(p *mon.Prop, pc *mon.ParentCtx) *mon.Aggregate {
 		configs = append(configs, fmt.Sprintf("G=%d,GOMAXPROCS=%d,iters=%d,seed=%d,concurrent-first=%v,random-storm=%v,hash-storm=%v,fault-storm=%v", o.c.g, o.c.procs, o.c.iters, o.seed, o.c.concFirst, o.c.storm, o.c.hash, o.c.fault))
 
 		if o.timed {
-			agg.Incon("race workload %d: watchdog fired", i)
+			if st := stalls[o.logp]; st.Deadlock != "" {
+				agg.ViolCount++
+				agg.Violations = append(agg.Violations, mon.Violation{Property: p.ID, What: "concurrent calls never return (each of them returns when run alone): " + st.Deadlock, Key: "deadlock-under-concurrency",
+					Case: map[string]any{"config": configs[i]}, More: map[string]any{"goroutine_dump": st.Dump}})
+
+				continue
+			}
+
+			agg.Incon("race workload %d: idle or over the wall-clock limit, and the goroutine dump does not show a deadlock; dump head: %s", i, mon.Trunc(stalls[o.logp].Dump, 2500))
 			continue
 		}
 
